@@ -162,40 +162,42 @@ func connect(fd int, remoteAddr net.Addr, timeout time.Duration, opts ...sonicop
 		break
 	}
 
-	// we can get EINPROGRESS/EAGAIN if the socket is nonblocking, so we fix it with a select
+	// we can get EINPROGRESS/EAGAIN if the socket is nonblocking, so we wait until it is writable
 	// https://man7.org/linux/man-pages/man2/connect.2.html#EINPROGRESS
-
-	var fds unix.FdSet
-	fds.Set(fd)
+	//
+	// poll(2) and not select(2): an fd_set only holds descriptor numbers below FD_SETSIZE (1024), FdSet.Set panics beyond
+	// that, i.e. as soon as the process has more than a thousand descriptors open.
+	fds := []unix.PollFd{{Fd: int32(fd), Events: unix.POLLOUT}}
 
 	startTime = time.Now()
 
 	for {
-		// Prevent an infinite select() loop, time out eventually
+		// Prevent an infinite poll() loop, time out eventually
 		remainingTime := 5 * timeout - time.Since(startTime)
 		if remainingTime < 0 { 
 			return sonicerrors.ErrTimeout
 		}
 
-		t := unix.NsecToTimeval(remainingTime.Nanoseconds())
+		// round up: a zero timeout would turn the wait into a busy loop
+		ms := int((remainingTime + time.Millisecond - 1) / time.Millisecond)
 
-		n, err := unix.Select(fd+1, nil, &fds, nil, &t)
+		n, err := unix.Poll(fds, ms)
 		if err == nil {
 			// Handle timeout
 			if n == 0 {
 				return sonicerrors.ErrTimeout
 			}
 
-			// Select succeeded
+			// The socket is writable (or in error: SO_ERROR below tells)
 			break 
 		}
 
 		// Handle errors
 		if !errors.Is(err, syscall.EINTR) {
-			return os.NewSyscallError("select", err)
+			return os.NewSyscallError("poll", err)
 		}
 
-		// Retry the select syscall if interrupted
+		// Retry the poll syscall if interrupted
 	}
 
 	socketErr, err := syscall.GetsockoptInt(fd, syscall.SOL_SOCKET, syscall.SO_ERROR)
